@@ -35,6 +35,11 @@ pub enum REvent {
         call: usize,
         args: Tree,
     },
+    /// `witness::NAME` was evaluated
+    Witness {
+        name: String,
+        value: Tree,
+    },
 }
 
 impl REvent {
@@ -52,6 +57,7 @@ impl REvent {
             ),
             REvent::Fail { call } => format!("#{call} fail"),
             REvent::Marker { call, args } => format!("#{call} marker {}", args.brief()),
+            REvent::Witness { name, value } => format!("witness::{name} {}", value.brief()),
         }
     }
 }
@@ -287,6 +293,10 @@ impl<'a> Interp<'a> {
                     .cloned()
                     .ok_or_else(|| Stop::Refuse(format!("no witness value for {n}")))?;
                 self.witness_reads.push((n.clone(), v.clone()));
+                self.events.push(REvent::Witness {
+                    name: n.clone(),
+                    value: layout_value(&v),
+                });
                 Ok(v)
             }
             Expr::Param(n) => self
